@@ -24,6 +24,7 @@ RULE = (
     "(staging, motors, monitor, flyer plans) x decisions; Hypothesis profile 'general'. Non-trivial: the call ended by "
     "interruption or failure while at least one obligation (staged device, moved motor, kicked-off flyer, monitor) "
     "existed. Distinct = canonical JSON."
+    ' Also the monitor plan x pause/suspend at every boundary x a failing n-th clear_sub/subscribe of the monitored signal.'
 )
 ASSUMPTIONS = ["requests arrive at boundaries between event-loop callbacks", "fake devices log successful operations only after any injected fault"]
 KINDS = ("pause", "suspend", "abort", "stop", "halt")
